@@ -321,6 +321,10 @@ func (g G) drawUser(i int, o worldOpts, hard bool) UserCfg {
 			ca := CustomAttrCfg{Name: g.text(fmt.Sprintf("%sc%d.name", lab, k), fmt.Sprintf("attr%d-%s", k, mk), hard),
 				Friendly: g.pick(fmt.Sprintf("%sc%d.fr", lab, k), "", "Friendly "+mk),
 				Format:   g.pick(fmt.Sprintf("%sc%d.fmt", lab, k), "", "urn:oasis:names:tc:SAML:2.0:attrname-format:basic", "urn:oasis:names:tc:SAML:2.0:attrname-format:uri")}
+			if k > 0 && len(u.Custom) > 0 && g.chance(fmt.Sprintf("%sc%d.dup", lab, k), 8) {
+				// the storage reports one attribute name in two calls (the later call supersedes the earlier one)
+				ca.Name = u.Custom[len(u.Custom)-1].Name
+			}
 			nv := g.intn(fmt.Sprintf("%sc%d.nv", lab, k), 4)
 			for v := 0; v < nv; v++ {
 				if g.chance(fmt.Sprintf("%sc%d.v%d.empty", lab, k, v), 6) {
